@@ -180,6 +180,57 @@ def l_reflexive(dim, s):
     return lemma
 
 
+def l_same_plain(dim, s):
+    """same-system comparisons are conditions on the *stored* numbers and nothing else: posed over ALL reals - no representability precondition
+    (rho = 0 or negative, phi outside [-pi, pi], theta outside (0, pi), tau of any sign are all legal stored values of a comparison)"""
+    pk, g = PK[dim], ",".join(s)
+    names = [n for grp in s for n in NAMES[grp]]
+
+    def lemma(L):
+        a = [L.real(f"a_{n}") for n in names]
+        b = [L.real(f"b_{n}") for n in names]
+        rtol, atol = L.real("rtol", "nonneg"), L.real("atol", "nonneg")
+        e = L.fn(pk, "equal", f"{g},{g}")(*a, *b)
+        ne = L.fn(pk, "not_equal", f"{g},{g}")(*a, *b)
+        c1 = L.fn(pk, "isclose", f"{g},{g}")(rtol, atol, False, *a, *b)
+        stored_eq, stored_close = None, None
+        for x, y in zip(a, b):
+            q = (x == y)
+            d = L.abs(x - y) <= atol + rtol * L.abs(y)
+            stored_eq = q if stored_eq is None else (stored_eq & q)
+            stored_close = d if stored_close is None else (stored_close & d)
+        if L.mode == "sym":
+            iff(L, "equal-iff-stored-equal", e, stored_eq)
+            iff(L, "not_equal-iff-some-stored-coordinate-differs", ~ne, stored_eq)
+            iff(L, "isclose-iff-stored-close", c1, stored_close)
+        else:
+            L.holds("equal-iff-stored-equal", bool(e) == bool(stored_eq))
+            L.holds("not_equal-iff-some-stored-coordinate-differs", bool(ne) == (not bool(stored_eq)))
+            L.holds("isclose-iff-stored-close", bool(c1) == bool(stored_close))
+    return lemma
+
+
+def plain_strata(n):
+    """correlated points for the all-reals lemma: b = a; b = a with one coordinate nudged; coordinate j exactly zero in both operands (others differ)"""
+    def gen(vals):
+        import mpmath as mp
+        a, b, rest = list(vals[:n]), list(vals[n:2 * n]), list(vals[2 * n:])
+        out = [("b := a", a + a + rest)]
+        for j in range(n):
+            b2 = list(a); b2[j] = b2[j] + mp.mpf(1) / 8
+            out.append((f"b := a, coordinate {j} + 1/8", a + b2 + rest))
+            a3, b3 = list(a), list(b)
+            a3[j] = b3[j] = mp.mpf(0)
+            out.append((f"coordinate {j} exactly 0 in both operands", a3 + b3 + rest))
+            a4 = list(a); b4 = list(a)
+            a4[j] = b4[j] = mp.mpf(0)
+            k = (j + 1) % n
+            b4[k] = b4[k] + mp.mpf(1) / 4
+            out.append((f"coordinate {j} exactly 0 in both operands, coordinate {k} differs", a4 + b4 + rest))
+        return out
+    return gen
+
+
 def tau_cases(s1, s2=None):
     keys = []
     if "tau" in s1:
@@ -195,6 +246,11 @@ LEMMAS = []
 for _d in (2, 3, 4):
     for _s in systems(_d):
         LEMMAS.append(LemmaJob("C12", f"{PK[_d]}[{','.join(_s)}]/reflexive", l_reflexive(_d, _s), cases=tau_cases(_s)))
+    for _s in systems(_d):
+        if _d == 4 and _s[:2] != ("xy", "z"):
+            continue      # the 4D same-system kernels of the other storages compare through conversions (trigonometric / logarithmic functions of the stored
+                          # numbers): not expressible over plain reals - they keep the stored-coordinate characterisation on the representable domain (l_pair)
+        LEMMAS.append(LemmaJob("C12", f"{PK[_d]}[{','.join(_s)}]/same-system-all-reals", l_same_plain(_d, _s), structured=plain_strata(sum(len(NAMES[g_]) for g_ in _s))))
     for _s1 in systems(_d):
         for _s2 in systems(_d):
             LEMMAS.append(LemmaJob("C12", f"{PK[_d]}[{','.join(_s1)};{','.join(_s2)}]/coherence", l_pair(_d, _s1, _s2), cases=tau_cases(_s1, _s2), structured=structured_pairs(_s1, _s2)))
